@@ -761,6 +761,30 @@ class CallMixin:
             else:
                 st.vars.pop(name, None)
 
+    def m_items(self, recv, args, kw, st, n):
+        d = recv.d if type(recv).__name__ == "_Map" else recv
+        if not isinstance(d, dict):
+            raise Unsupported(".items() of %r (line %d)" % (type(recv), n.lineno))
+        return SList([(k_, v_) for k_, v_ in d.items()])
+
+    def m_keys(self, recv, args, kw, st, n):
+        d = recv.d if type(recv).__name__ == "_Map" else recv
+        if not isinstance(d, dict):
+            raise Unsupported(".keys() of %r (line %d)" % (type(recv), n.lineno))
+        return SList(list(d.keys()))
+
+    def m_values(self, recv, args, kw, st, n):
+        d = recv.d if type(recv).__name__ == "_Map" else recv
+        if not isinstance(d, dict):
+            raise Unsupported(".values() of %r (line %d)" % (type(recv), n.lineno))
+        return SList(list(d.values()))
+
+    def m_get(self, recv, args, kw, st, n):
+        d = recv.d if type(recv).__name__ == "_Map" else recv
+        if not isinstance(d, dict) or not args or not isinstance(args[0], (str, int)):
+            raise Unsupported(".get() form (line %d)" % n.lineno)
+        return d.get(args[0], args[1] if len(args) > 1 else None)
+
     def b_set(self, args, kw, st, n):
         if not args:
             return set()
